@@ -1528,4 +1528,12 @@ def _build():
 
 
 FINDINGS = _build()
-FIXED = []
+FIXED = [
+    'fixed: property=C02 fc46805 class/pydantic/function with emit_default_doc: string default with a full stop cut at the dot or SyntaxError',
+    'fixed: property=C02 26237d2 class/pydantic/function with emit_default_doc: string default with a double quote raised SyntaxError on parse',
+    "fixed: property=C02 efa4dbd function with emit_default_doc: empty-string default left a dangling 'Defaults to' in the description",
+]
+
+# patterns of defects that have since been repaired in the repository (see FIXED): no longer known findings
+FIXED_IDS = ['C02-double-quote-in-string-default-not-escaped', 'C02-function-doc-65', 'C02-function-doc-66', 'C02-string-default-cut-at-full-stop']
+FINDINGS = [f for f in FINDINGS if f["id"] not in FIXED_IDS]
